@@ -36,7 +36,8 @@ ID_FAMILIES = [
     ["new", "with_client", "with_base_url"],
     ["storeListOrders", "storeCreateOrder", "storeGetOrder"],
 ]
-PATHS = ["/pets", "/pets/{id}", "/users", "/users/{id}/x", "/a", "/b"]
+# (several keys that become ONE route on the server: trailing-slash twin, query-string variants)
+PATHS = ["/pets", "/pets/{id}", "/users", "/users/{id}/x", "/a", "/b", "/pets/", "/a?x=1", "/a?x=2"]
 METHODS = ["get", "post", "put", "delete", "patch", "head"]
 
 
@@ -71,21 +72,27 @@ def run_case(ctx, idx, ops, subsets):
     res = []
     silent = [[o["method"], o["path"]] for o in ops if o.get("bare")]
     for mode, S in subsets(ids):
-        outdir = os.path.join(d, "out_%s_%d" % (mode, len(res)))
-        args = ["generate", "client-mod", "-i", spec_path, "-o", outdir, "-q", "--" + mode, ",".join(S)] if S else None
         if not S:
             continue
-        rc2, o2, e2, to2 = ctx.run_cli(args)
-        emitted = []
-        cf = os.path.join(outdir, "client.rs")
-        if rc2 == 0 and os.path.exists(cf):
-            facts = ctx.synfacts([cf]).get(cf, {})
-            for m in facts.get("client_methods", []):
-                for doc in m.get("docs", []):
-                    mm = PATHDOC.search(doc)
-                    if mm:
-                        emitted.append([mm.group(1), mm.group(2)])
-        res.append({"op": "registry.select", "in": {"ops": ops, "S": S, "mode": mode, "silent": silent}, "impl": {"list": rows, "emitted": emitted, "cli_rc": rc2, "stderr": e2[-300:]}})
+        # client methods and server trait methods in turn (both for every selection in the thorough tier)
+        targets = ["client-mod", "server-mod"] if not ctx.quick else [("client-mod", "server-mod")[len(res) % 2]]
+        for target in targets:
+            outdir = os.path.join(d, "out_%s_%d" % (mode, len(res)))
+            rc2, o2, e2, to2 = ctx.run_cli(["generate", target, "-i", spec_path, "-o", outdir, "-q", "--" + mode, ",".join(S)])
+            emitted = []
+            cf = os.path.join(outdir, "client.rs" if target == "client-mod" else "server.rs")
+            if rc2 == 0 and os.path.exists(cf):
+                facts = ctx.synfacts([cf]).get(cf, {})
+                if target == "client-mod":
+                    methods = facts.get("client_methods", [])
+                else:
+                    methods = [m for it in facts.get("items", []) if it.get("kind") == "trait" for m in it.get("methods", [])]
+                for m in methods:
+                    for doc in m.get("docs", []):
+                        mm = PATHDOC.search(doc)
+                        if mm:
+                            emitted.append([mm.group(1), mm.group(2)])
+            res.append({"op": "registry.select", "in": {"ops": ops, "S": S, "mode": mode, "silent": silent, "target": target}, "impl": {"list": rows, "emitted": emitted, "cli_rc": rc2, "stderr": e2[-300:]}})
     return res
 
 
@@ -130,8 +137,8 @@ def run(ctx):
                     break
     return ctx.finish(
         checker_cmd="lake build Oas3Model.Props.C08 && #print axioms on every theorem" + ("" if ctx.quick else " && leanchecker"),
-        trusted_base=vlib.TRUSTED_BASE + ["the CLI's table output is parsed by a regular expression (one row per operation)", "method doc lines identify the operation a client method belongs to"],
-        rule="K: random operation sets (ids sharing prefixes/suffixes, colliding after snake-casing, missing operationId, keywords) through OperationRegistry::with_filters vs the model; E: the REAL binary: `list operations`, then `generate client-mod --only S` / `--exclude S` for every non-empty subset S of the listed ids (all subsets thorough, 5 sampled per set quick), emitted client methods mapped back to (METHOD, path); non-trivial = a selection that is a proper subset; distinct by (ops, S, mode)")
+        trusted_base=vlib.TRUSTED_BASE + ["the CLI's table output is parsed by a regular expression (one row per operation)", "method doc lines identify the operation a client method / server trait method belongs to"],
+        rule="K: random operation sets (ids sharing prefixes/suffixes, colliding after snake-casing, missing operationId, keywords) through OperationRegistry::with_filters vs the model; E: the REAL binary: `list operations`, then `generate client-mod | server-mod --only S` / `--exclude S` for every non-empty subset S of the listed ids (all subsets x both targets thorough; 5 sampled per set, targets alternating, quick), emitted client methods / ApiServer trait methods mapped back to (METHOD, path); path keys include trailing-slash twins and query-string variants that become one route; non-trivial = a selection that is a proper subset; distinct by (ops, S, mode)")
 
 
 def vlib_field(s):
